@@ -547,6 +547,31 @@ def normalize_calls(model):
     (`self.CheckValues(values, dimension=d)` -> `self.CheckValues(values, d)`), so that rules see one
     spelling of a call.  The table module is left alone (its interpreter binds keywords itself)."""
     n = 0
+    # `super().m(a)` inside a method of class C is `B.m(self, a)` for the next class B of C's linearisation that
+    # defines m (the explicit spelling is the one the baseline uses)
+    for q, fn in list(model.funcs.items()):
+        if fn.path.endswith("posc.py") or fn.parent is not None or not fn.cls or not fn.is_method or fn.is_staticmethod or not fn.params:
+            continue
+        selfname = fn.params[0]
+        for call in [x for x in ast.walk(fn.node) if isinstance(x, ast.Call)]:
+            f = call.func
+            if not (isinstance(f, ast.Attribute) and isinstance(f.value, ast.Call) and isinstance(f.value.func, ast.Name) and f.value.func.id == "super"):
+                continue
+            sargs = f.value.args
+            if not (len(sargs) == 0 or (len(sargs) == 2 and isinstance(sargs[0], ast.Name) and sargs[0].id == fn.cls and isinstance(sargs[1], ast.Name) and sargs[1].id == selfname)):
+                continue
+            mro = model.mro(fn.cls)
+            base = next((c for c in mro[1:] if c in model.classes and f.attr in model.classes[c].methods and model.classes[c].methods[f.attr].cls == c), None)
+            if base is None:
+                continue
+            tgt = model.classes[base].methods[f.attr]
+            if tgt.is_staticmethod:
+                continue
+            call.func = ast.copy_location(ast.Attribute(value=ast.copy_location(ast.Name(id=base, ctx=ast.Load()), f), attr=f.attr, ctx=ast.Load()), f)
+            if not tgt.is_classmethod:
+                call.args.insert(0, ast.copy_location(ast.Name(id=selfname, ctx=ast.Load()), f))
+            n += 1
+        relink(fn.node)
     for q, fn in list(model.funcs.items()):
         if fn.path.endswith("posc.py") or fn.parent is not None:
             continue
